@@ -205,7 +205,10 @@ func (c *Check) Finish(seed int) int {
 	for _, r := range c.Rules {
 		// a rule that reported a violation is not vacuous: its early exit explains the low count
 		if r.Sites < r.Floor && r.Violations == 0 {
-			broken = append(broken, fmt.Sprintf("rule %s matched %d site(s), floor is %d (vacuous rule: checker out of date with the tree)", r.ID, r.Sites, r.Floor))
+			// fewer sites than confirmed by hand: part of the mechanism is gone. An undischarged obligation
+			// (the rule decided less than it stands for), reported as a violation of this rule.
+			r.Check(false, nil, fmt.Sprintf("the rule applies to at least %d sites", r.Floor), nil,
+				fmt.Sprintf("rule %s matched %d site(s), the floor confirmed on the reference tree is %d: sites of the mechanism were removed or are no longer recognised, so the clause is not established for them", r.ID, r.Sites, r.Floor))
 		}
 	}
 	nviol, nknown := 0, 0
